@@ -246,6 +246,10 @@ class Check:
         shutil.rmtree(self.scratch, ignore_errors=True)
         os.makedirs(self.scratch, exist_ok=True)
         os.makedirs(self.replay_dir, exist_ok=True)
+        for old in os.listdir(self.replay_dir):  # replays of an earlier run with the same tier and seed
+            if old.startswith(f"{tier}-{self.seed}-"):
+                q = os.path.join(self.replay_dir, old)
+                shutil.rmtree(q, ignore_errors=True) if os.path.isdir(q) else os.remove(q)
         self.rng = random.Random(f"{prop}:{self.seed}")
 
     # -- reporting
